@@ -561,6 +561,19 @@ def ob_variadic(cmax):
     return mk(f"variadic[c<={cmax}]", setup)
 
 
+def ob_special_constants(pc, tc):
+    """constants that are falsy or None (None, 0, '') as leaves of patterns and terms: a matcher must treat them like any other
+    constant (a variable bound to None is bound)"""
+    special = [L(None), L("")]
+
+    def setup(e):
+        lhs = gen(e, "p", 1, [INT] + XY + special[:2], [(f, 2)], pc)
+        e.assume(x_first(lhs))
+        term = gen(e, "t", 1, [INT] + special, [(f, 2)], tc)
+        return [Spec(lhs, RHS, ("x", "y"))], term
+    return mk(f"special_constants[pc<={pc},tc<={tc}]", setup)
+
+
 def obligations(tier):
     obs = []
     if tier == "quick":
@@ -571,7 +584,9 @@ def obligations(tier):
         obs.append(ob_edge(2))
         obs.append(ob_arity3(1, 1))
         obs.append(ob_bottom_up(1, 2, BU_TERMS))
+        obs.append(ob_special_constants(1, 1))
     else:
+        obs.append(ob_special_constants(2, 2))
         obs.append(ob_one_rule(2, 2, [INT], "int-terms"))
         obs.append(ob_one_rule(1, 1, [INT, S("a")], "int+str-terms"))
         obs.append(ob_two_rules(2, 2, [INT, S("x"), S("y"), L((g, INT)), L((g, "x"))],
